@@ -319,21 +319,21 @@ impl ReadXml for Maybe<Installed> {
                 }
             }
         }
-        if default_reject {
-            Ok(Self(Some((
-                name.ok_or(ReadError::MissingElement {
-                    msg_type: "policy-statement",
-                    element: "name",
-                })?,
-                Installed {
-                    ipv4: ipv4.unwrap_or_default(),
-                    ipv6: ipv6.unwrap_or_default(),
-                },
-            ))))
-        } else {
-            tracing::warn!("skipping policy-statement '{name:?}' without default reject term");
-            Ok(Self(None))
+        if !default_reject {
+            // Still installed: every update re-asserts the default reject term, and the ranges
+            // that are there have to be known for the update to remove the stale ones.
+            tracing::warn!("policy-statement '{name:?}' has no default reject term");
         }
+        Ok(Self(Some((
+            name.ok_or(ReadError::MissingElement {
+                msg_type: "policy-statement",
+                element: "name",
+            })?,
+            Installed {
+                ipv4: ipv4.unwrap_or_default(),
+                ipv6: ipv6.unwrap_or_default(),
+            },
+        ))))
     }
 }
 
